@@ -23,6 +23,7 @@ import (
 
 type calCfg struct {
 	name      string
+	reg       string // the name the calendar is registered under (by-name API)
 	ct        cal_types.CalType
 	setup     func()
 	skipYear0 bool
@@ -36,15 +37,15 @@ func regCfg(c *calCfg) { calCfgs[c.name] = c }
 
 func init() {
 	nop := func() {}
-	regCfg(&calCfg{name: "eth", ct: ethiopian.New(), setup: nop, short: 365, rule: ruleEth})
-	regCfg(&calCfg{name: "greg", ct: gregorian.New(), setup: nop, short: 365, rule: ruleGreg})
-	regCfg(&calCfg{name: "gprol", ct: gregorian_proleptic.New(), setup: nop, skipYear0: true, short: 365, rule: ruleGprol})
-	regCfg(&calCfg{name: "hij-a", ct: hijri.New(), setup: func() { setMonthData(false) }, short: 354, rule: ruleHijA})
-	regCfg(&calCfg{name: "hij-t", ct: hijri.New(), setup: func() { setMonthData(true) }, short: 354, rule: ruleHijA})
-	regCfg(&calCfg{name: "ind", ct: indian_national.New(), setup: nop, short: 365, rule: ruleInd})
-	regCfg(&calCfg{name: "jal33", ct: jalali.New(), setup: func() { jalali.SetAlgorithm2820(false) }, short: 365, rule: ruleJal33})
-	regCfg(&calCfg{name: "jal2820", ct: jalali.New(), setup: func() { jalali.SetAlgorithm2820(true) }, short: 365, rule: ruleJal2820})
-	regCfg(&calCfg{name: "jul", ct: julian.New(), setup: nop, short: 365, rule: ruleJul})
+	regCfg(&calCfg{name: "eth", reg: "ethiopian", ct: ethiopian.New(), setup: nop, short: 365, rule: ruleEth})
+	regCfg(&calCfg{name: "greg", reg: "gregorian", ct: gregorian.New(), setup: nop, short: 365, rule: ruleGreg})
+	regCfg(&calCfg{name: "gprol", reg: "gregorian_proleptic", ct: gregorian_proleptic.New(), setup: nop, skipYear0: true, short: 365, rule: ruleGprol})
+	regCfg(&calCfg{name: "hij-a", reg: "hijri", ct: hijri.New(), setup: func() { setMonthData(false) }, short: 354, rule: ruleHijA})
+	regCfg(&calCfg{name: "hij-t", reg: "hijri", ct: hijri.New(), setup: func() { setMonthData(true) }, short: 354, rule: ruleHijA})
+	regCfg(&calCfg{name: "ind", reg: "indian_national", ct: indian_national.New(), setup: nop, short: 365, rule: ruleInd})
+	regCfg(&calCfg{name: "jal33", reg: "jalali", ct: jalali.New(), setup: func() { jalali.SetAlgorithm2820(false) }, short: 365, rule: ruleJal33})
+	regCfg(&calCfg{name: "jal2820", reg: "jalali", ct: jalali.New(), setup: func() { jalali.SetAlgorithm2820(true) }, short: 365, rule: ruleJal2820})
+	regCfg(&calCfg{name: "jul", reg: "julian", ct: julian.New(), setup: nop, short: 365, rule: ruleJul})
 	handlers["cal"] = calHandler
 }
 
@@ -249,7 +250,12 @@ var ruleInd = &rule{anchorJd: 2440588 + 31 + 28 + 21, anchorY: 1892, anchorM: 1,
 
 // ---------------------------------------------------------------------------------
 
-func dateStr(d *lib.Date) string { return fmt.Sprintf("%d/%d/%d", d.Year, d.Month, d.Day) }
+func dateStr(d *lib.Date) string {
+	if d == nil {
+		return "nil"
+	}
+	return fmt.Sprintf("%d/%d/%d", d.Year, d.Month, d.Day)
+}
 
 const (
 	fnvInit  = uint64(14695981039346656037)
@@ -485,6 +491,17 @@ func calJdRange(c *calCfg, list bool, lo, hi int) (string, []string) {
 		}
 		if back != jd {
 			ps.add("C01", "cfg=%s jd=%d date=%s%s ToJd(date)=%d", c.name, jd, dateStr(d), how, back)
+		}
+		// the same round trip through the by-name functions (C01 is observed there too)
+		if c.reg != "" {
+			bn, err := cal_types.JdTo(jd, c.reg)
+			if err != nil || bn == nil || bn.Year != dy || bn.Month != dm || bn.Day != dd {
+				ps.add("C01", "cfg=%s jd=%d%s: by name, cal_types.JdTo(jd, %q) = %s, err=%v; the calendar's own JdTo gives %d/%d/%d", c.name, jd, how, c.reg, dateStr(bn), err, dy, dm, dd)
+			}
+			bj, err := cal_types.ToJd(lib.NewDate(dy, dm, dd), c.reg)
+			if err != nil || bj != jd {
+				ps.add("C01", "cfg=%s jd=%d date=%d/%d/%d%s: by name, cal_types.ToJd(date, %q) = %d, err=%v (the date is the one JdTo gave for this day)", c.name, jd, dy, dm, dd, how, c.reg, bj, err)
+			}
 		}
 		// C02 (well-formed, successor)
 		ml := int(ct.GetMonthLen(d.Year, d.Month))
